@@ -52,6 +52,17 @@ impl Bin {
 pub enum StdinSpec {
     Null,
     Bytes(Vec<u8>),
+    /// standard input redirected from a regular file whose offset is already
+    /// at `offset` (as after `{ read line; xt; } < file`)
+    FileAt(Vec<u8>, usize),
+}
+
+#[derive(Clone, Copy, Debug, PartialEq)]
+pub enum StderrSpec {
+    Pipe,
+    DevFull,
+    /// a pipe whose reader is already gone
+    ClosedPipe,
 }
 
 #[derive(Clone, Debug)]
@@ -153,8 +164,26 @@ pub fn run_xt(bin: Bin, args: &[OsString], cwd: &Path, stdin: StdinSpec, stdout:
 }
 
 pub fn run_xt_limit(bin: Bin, args: &[OsString], cwd: &Path, stdin: StdinSpec, stdout: StdoutSpec, fifos: Fifos, limit_secs: u64) -> Res {
+    run_xt_full(bin, args, cwd, stdin, stdout, StderrSpec::Pipe, fifos, limit_secs)
+}
+
+#[allow(clippy::too_many_arguments)]
+pub fn run_xt_full(bin: Bin, args: &[OsString], cwd: &Path, stdin: StdinSpec, stdout: StdoutSpec, stderr: StderrSpec, fifos: Fifos, limit_secs: u64) -> Res {
     let mut cmd = Command::new(bin.path());
-    cmd.args(args).current_dir(cwd).stderr(Stdio::piped());
+    cmd.args(args).current_dir(cwd);
+    match stderr {
+        StderrSpec::Pipe => {
+            cmd.stderr(Stdio::piped());
+        }
+        StderrSpec::DevFull => {
+            cmd.stderr(std::fs::OpenOptions::new().write(true).open("/dev/full").expect("open /dev/full"));
+        }
+        StderrSpec::ClosedPipe => {
+            let (r, w) = make_pipe(None);
+            drop(r);
+            cmd.stderr(Stdio::from(w));
+        }
+    }
     cmd.env_clear();
     // never leave an xt process behind when the harness itself is killed
     unsafe {
@@ -170,6 +199,14 @@ pub fn run_xt_limit(bin: Bin, args: &[OsString], cwd: &Path, stdin: StdinSpec, s
         }
         StdinSpec::Bytes(_) => {
             cmd.stdin(Stdio::piped());
+        }
+        StdinSpec::FileAt(bytes, offset) => {
+            use std::io::{Seek, SeekFrom};
+            let p = cwd.join("stdin.redirect");
+            std::fs::write(&p, bytes).expect("write stdin file");
+            let mut f = File::open(&p).expect("open stdin file");
+            f.seek(SeekFrom::Start(*offset as u64)).expect("seek stdin file");
+            cmd.stdin(Stdio::from(f));
         }
     }
     let out_file_path = cwd.join("stdout.capture");
@@ -239,11 +276,12 @@ pub fn run_xt_limit(bin: Bin, args: &[OsString], cwd: &Path, stdin: StdinSpec, s
             v
         })
     });
-    let mut stderr_pipe = child.stderr.take().unwrap();
-    let stderr_thread = std::thread::spawn(move || {
-        let mut v = vec![];
-        let _ = stderr_pipe.read_to_end(&mut v);
-        v
+    let stderr_thread = child.stderr.take().map(|mut stderr_pipe| {
+        std::thread::spawn(move || {
+            let mut v = vec![];
+            let _ = stderr_pipe.read_to_end(&mut v);
+            v
+        })
     });
     let mut consumed = vec![];
     if let (Some(fd), Some(after)) = (reader_fd.take(), closing) {
@@ -292,7 +330,7 @@ pub fn run_xt_limit(bin: Bin, args: &[OsString], cwd: &Path, stdin: StdinSpec, s
         }
     };
     let mut stdout_bytes = stdout_thread.map(|t| t.join().unwrap_or_default()).unwrap_or_default();
-    let stderr = stderr_thread.join().unwrap_or_default();
+    let stderr_bytes = stderr_thread.map(|t| t.join().unwrap_or_default()).unwrap_or_default();
     if let Some(t) = pty_thread {
         stdout_bytes = t.join().unwrap_or_default();
     }
@@ -310,7 +348,7 @@ pub fn run_xt_limit(bin: Bin, args: &[OsString], cwd: &Path, stdin: StdinSpec, s
         code: status.and_then(|s| s.code()),
         signal: status.and_then(|s| s.signal()),
         stdout: stdout_bytes,
-        stderr,
+        stderr: stderr_bytes,
         timed_out,
     }
 }
